@@ -7,11 +7,13 @@ ENC = "ppci/arch/encoding.py"
 TOK = "ppci/arch/token.py"
 
 
-def field_bits(project, module, expr, depth=0):
+def field_bits(project, module, expr, depth=0, known=None):
     """list of (lo, hi) bit ranges (most significant group first) that a
     token field expression denotes, or None"""
     if depth > 6:
         return None
+    if isinstance(expr, ast.Name) and known and expr.id in known:
+        return list(known[expr.id])
     if isinstance(expr, ast.Call):
         cn = last_name(expr)
         if cn == "bit_range" and len(expr.args) >= 2:
@@ -25,13 +27,13 @@ def field_bits(project, module, expr, depth=0):
         if cn == "bit_concat":
             out = []
             for x in expr.args:
-                r = field_bits(project, module, x, depth + 1)
+                r = field_bits(project, module, x, depth + 1, known)
                 if r is None:
                     return None
                 out += r
             return out
     if isinstance(expr, ast.BinOp) and isinstance(expr.op, ast.Add):
-        l, r = field_bits(project, module, expr.left, depth + 1), field_bits(project, module, expr.right, depth + 1)
+        l, r = field_bits(project, module, expr.left, depth + 1, known), field_bits(project, module, expr.right, depth + 1, known)
         if l is None or r is None:
             return None
         return l + r
@@ -59,7 +61,7 @@ class TokenModel:
                         if isinstance(a, ast.Assign) and norm(a.targets[0]) == "size":
                             self.size = try_const(a.value, c._module, project)
                 elif isinstance(st, ast.Assign) and isinstance(st.targets[0], ast.Name):
-                    fb = field_bits(project, c._module, st.value)
+                    fb = field_bits(project, c._module, st.value, known=self.fields)
                     if fb is not None and st.targets[0].id not in self.fields:
                         self.fields[st.targets[0].id] = fb
                         self.signed[st.targets[0].id] = field_signed(st.value)
